@@ -395,3 +395,94 @@ func hasConflict(ps [][]string) bool {
 	}
 	return false
 }
+
+// ------------------------------------------------------------------ static reference
+
+// what walking a path through a static type gives: the type of the slot at its end, whether the walk
+// passed an interface-typed slot with steps remaining (then the rest is only known at request time),
+// or that the path cannot be walked at all. Written from the rules the property states for paths:
+// struct fields must exist and be exported, one pointer level in front of a struct, string-keyed maps.
+func refWalk(te string, p []string, target bool) (end string, viaIface bool, ok bool) {
+	for i, f := range p {
+		switch {
+		case strings.HasPrefix(te, "map[string]"):
+			te = te[len("map[string]"):]
+		case strings.HasPrefix(te, "map[int]"):
+			return "", false, false
+		case te == "any":
+			if i < len(p)-1 {
+				return "any", true, true
+			}
+			return "any", false, true
+		default:
+			st, isStruct := structTypes[strings.TrimPrefix(te, "*")]
+			if !isStruct || strings.HasPrefix(te, "**") {
+				return "", false, false
+			}
+			sf, found := st.FieldByName(f)
+			if !found || !sf.IsExported() {
+				return "", false, false
+			}
+			// a promoted field: the embedded fields on the way must be reachable too; on the target side an
+			// embedded pointer has to be instantiated, which needs an exported embedded field
+			for j := 1; j < len(sf.Index); j++ {
+				ef := st.FieldByIndex(sf.Index[:j])
+				if target && ef.Type.Kind() == reflect.Ptr && !ef.IsExported() {
+					return "", false, false
+				}
+			}
+			te = typeExpr(sf.Type)
+		}
+	}
+	return te, false, true
+}
+
+func refStructOrMap(te string) bool {
+	if strings.HasPrefix(te, "map[") || strings.HasPrefix(te, "*") {
+		return true
+	}
+	_, ok := structTypes[te]
+	return ok
+}
+
+// must Compile reject the declaration for a static reason (true), or must it let it through (false)
+func refStaticReject(T string, d *Decl) bool {
+	if len(d.Maps) == 0 {
+		return !(d.S == T || T == "any" || d.S == "any")
+	}
+	fromAll, toAll := false, false
+	for _, m := range d.Maps {
+		if len(m.From) == 0 {
+			fromAll = true
+		}
+		if len(m.To) == 0 {
+			toAll = true
+		}
+	}
+	if fromAll && toAll {
+		return true
+	}
+	if !toAll && !refStructOrMap(T) && T != "any" {
+		return true
+	}
+	if !fromAll && !refStructOrMap(d.S) {
+		return true
+	}
+	for _, m := range d.Maps {
+		pt, pvia, ok := refWalk(d.S, m.From, false)
+		if !ok {
+			return true
+		}
+		st, svia, ok := refWalk(T, m.To, true)
+		if !ok {
+			return true
+		}
+		if svia || pvia {
+			continue // decided at request time
+		}
+		if !(pt == st || st == "any" || pt == "any") {
+			return true
+		}
+	}
+	return false
+}
